@@ -139,4 +139,14 @@ theorem mem_akeys_aset (m : List (κ × α)) (x y : κ) (v : α) :
       · exact h
   · simp [or_comm]
 
+theorem aset_aset (m : List (κ × α)) (x : κ) (v w : α) : aset (aset m x v) x w = aset m x w := by
+  induction m with
+  | nil => simp [aset]
+  | cons kv m ih =>
+    obtain ⟨k, u⟩ := kv
+    by_cases hk : k = x
+    · simp [aset, hk]
+    · simp [aset, hk, ih]
+
+
 end TaskModel.Finger
